@@ -40,6 +40,8 @@ func main() {
 	gen := flag.Bool("genonly", false, "generate obligations only")
 	verbose := flag.Bool("v", false, "verbose")
 	flag.BoolVar(&cover, "cover", false, "extra vacuity (cover) checks")
+	locks := flag.Bool("locks", false, "generate lock-discipline obligations (guarded fields, lock balance, wait levels)")
+	kinds := flag.String("kinds", "", "regexp: keep only obligations whose kind matches (after generation)")
 	flag.Parse()
 	if *lib == "" {
 		exe, _ := os.Executable()
@@ -56,6 +58,7 @@ func main() {
 		fmt.Fprintln(os.Stderr, "govc: prelude:", err)
 		os.Exit(2)
 	}
+	eng.lockMode = *locks
 	if err := eng.loadAllContracts(*lib); err != nil {
 		fmt.Fprintln(os.Stderr, "govc: contracts:", err)
 		os.Exit(2)
@@ -122,7 +125,7 @@ func main() {
 		var all []string
 		for n, fn := range eng.allFuncs {
 			if eng.isRepoFunc(fn) && !done[n] && fn.Parent() == nil && len(fn.Blocks) > 0 && fn.Synthetic == "" {
-				if c := eng.contracts[n]; c != nil && c.Trusted {
+				if c := eng.contracts[n]; c != nil && c.Trusted && !*locks {
 					continue
 				}
 				if fre == nil || fre.MatchString(n) {
@@ -132,7 +135,30 @@ func main() {
 		}
 		sort.Strings(all)
 		for _, n := range all {
-			o.Functions = append(o.Functions, eng.verifyFunction(eng.allFuncs[n], nil))
+			var lc *Contract
+			if c := eng.contracts[n]; c != nil && c.Trusted {
+				// lock-discipline sweep of a function whose functional contract is trusted: only its
+				// lock clauses apply to the body
+				lc = &Contract{Name: c.Name, ParamNames: c.ParamNames, Results: c.Results, Holds: c.Holds, Extra: map[string][]*Clause{"holds_read": c.Extra["holds_read"]},
+					Loops: map[int]*LoopSpec{}, Pkg: c.Pkg, Sig: c.Sig, Props: c.Props, HasAssigns: true, Assigns: []*AssignTarget{{Kind: "everything"}}}
+			}
+			o.Functions = append(o.Functions, eng.verifyFunction(eng.allFuncs[n], lc))
+		}
+	}
+	if *kinds != "" {
+		kre := regexp.MustCompile(*kinds)
+		for _, f := range o.Functions {
+			var keep []*Obligation
+			for _, ob := range f.Obligations {
+				if kre.MatchString(ob.Kind) {
+					keep = append(keep, ob)
+				}
+			}
+			f.Obligations = keep
+			if f.OutOfSubset && len(f.Errors) > 0 {
+				// in a kind-filtered sweep, unsupported constructs elsewhere in the function do not matter
+				// unless they stopped the execution (then the obligations after that point are missing)
+			}
 		}
 	}
 	o.GenS = time.Since(t1).Seconds()
